@@ -1579,6 +1579,106 @@ theorem parts_text_ne (p : Nat) (t : Bytes) (rest : MsgParts) (ih2 : PartsNe F G
   simp only [refParts, refPh, Spec.Eval.Out.bind] at this ⊢
   exact this
 
+/-- the `{case n}` clauses of a plural: a clause that throws is a case the reference does not render -/
+def PCasesNe (cs : PluralCases) : Prop :=
+  ∀ (fuel : Nat) (sc : Scope) (r : JsPlural × Scope) (env : SEnv) (jenv : JEnv) (out : Bytes) (i : Int),
+    toPCases ae buf cs sc = some r → ScOk sc → GoodBuf sc buf → EnvRel R.entry sc env jenv → BufIs buf jenv out →
+    execPlural F G fuel r.1 i jenv = some .error → ∃ ro, refPlural F R ae cs i env = some ro ∧ ∀ x, ro ≠ .val x
+
+theorem pcases_nil_ne : PCasesNe F G R ae buf .nil := by
+  intro fuel sc r env jenv out i h hs hg hrel hb hx
+  simp only [toPCases, Option.some.injEq] at h; subst h
+  simp [execPlural] at hx
+
+theorem pcases_cons_ne (p : Nat) (v : Int) (bp : Nat) (body : MsgParts) (rest : PluralCases) (ih1 : PartsNe F G R ae buf body)
+    (ih2 : PCasesNe F G R ae buf rest) : PCasesNe F G R ae buf (.cons p v bp body rest) := by
+  intro fuel sc r env jenv out i h hs hg hrel hb hx
+  unfold toPCases at h
+  obtain ⟨rb, rr, hrb, hst, hrr, rfl⟩ := pcaseJoin_some h
+  obtain ⟨a1, _, a3⟩ := toParts_scope ae body buf sc rb hrb hs
+  simp only [execPlural] at hx
+  simp only [refPlural]
+  by_cases hex : SoyVerif.Spec.JsSem.exact v = true
+  · simp only [hex, if_true] at hx
+    by_cases hiv : (i == v) = true
+    · simp only [hiv, if_true] at hx ⊢
+      simp only [Option.some.injEq] at hx
+      exact ⟨_, rfl, ih1 fuel sc rb env jenv out hrb hs hg hrel hb hx⟩
+    · simp only [hiv, Bool.false_eq_true, if_false] at hx ⊢
+      exact ih2 fuel rb.2 rr env jenv out i hrr a1 (goodBuf_of_stack hg hst a3) (envRel_stack hrel hst) hb hx
+  · simp only [hex, Bool.false_eq_true, if_false] at hx
+    cases hx
+
+theorem parts_plural_ne (p : Nat) (vn : Bytes) (value : Expr) (cases : PluralCases) (dp : Nat) (dflt rest : MsgParts)
+    (okc : PCasesOk F G R ae buf cases) (okd : PartsOk F G R ae buf dflt)
+    (nec : PCasesNe F G R ae buf cases) (ned : PartsNe F G R ae buf dflt) (ner : PartsNe F G R ae buf rest) :
+    PartsNe F G R ae buf (.plural p vn value cases dp dflt rest) := by
+  intro fuel sc r env jenv out h hs hg hrel hb hx x hx'
+  unfold toParts at h
+  obtain ⟨j, rc, rd, rr, hj, hrc, hrd, hstd, hrr, rfl⟩ := pluralJoin_some h
+  obtain ⟨c1, c2, c3⟩ := toPCases_scope ae cases buf sc rc hrc hs
+  obtain ⟨d1, _, d3⟩ := toParts_scope ae dflt buf rc.2 rd hrd c1
+  have hgc : GoodBuf rc.2 buf := goodBuf_of_stack hg c2 c3
+  have hgd : GoodBuf rd.2 buf := goodBuf_of_stack hg hstd (Nat.le_trans c3 d3)
+  simp only [refParts] at hx'
+  obtain ⟨vv, hvv, hx'⟩ := out_bind_val hx'
+  simp only [execStmts] at hx
+  rcases sres_bind_error hx with hx1 | ⟨e1, hx1, hx2⟩
+  · -- the switch throws
+    simp only [execStmt] at hx1
+    rcases withVal_error hx1 with hve | ⟨jv, hjv, hx1⟩
+    · exact expr_no_throw sc env jenv hrel value j hj hve vv hvv
+    · obtain ⟨vv', hvv', hvj⟩ := C04c.gen_correct_refs_partial sc env jenv hrel value j jv hj hjv
+      rw [hvv] at hvv'
+      simp only [Out.val.injEq] at hvv'
+      subst hvv'
+      cases jv with
+      | num i =>
+        have := toJsV_int hvj
+        subst this
+        simp only at hx1 hx'
+        obtain ⟨r1, h1, _⟩ := out_bind_val hx'
+        cases hp : execPlural F G fuel rc.1 i jenv with
+        | some res =>
+          rw [hp] at hx1
+          simp only at hx1
+          subst hx1
+          obtain ⟨ro, hro, hne⟩ := nec fuel sc rc env jenv out i hrc hs hg hrel hb hp
+          rw [hro] at h1
+          exact hne r1 h1
+        | none =>
+          rw [hp] at hx1
+          simp only at hx1
+          have hn := (okc fuel sc rc env jenv out i hrc hs hg hrel hb).1 hp
+          rw [hn] at h1
+          simp only at h1
+          exact ned fuel rc.2 rd env jenv out hrd c1 hgc (envRel_stack hrel c2) hb hx1 r1 h1
+      | undefined => cases hx1
+      | null => cases hx1
+      | bool _ => cases hx1
+      | str _ => cases hx1
+      | arr _ => cases hx1
+      | obj _ => cases hx1
+  · -- the switch completed; the rest throws
+    have hone : execStmts F G fuel (.cons (.pluralS j rc.1 rd.1) .nil) jenv = .ok e1 := by
+      simp only [execStmts, hx1, SRes.bind]
+    have hpart : toParts ae buf (.plural p vn value cases dp dflt .nil) sc = some (.cons (.pluralS j rc.1 rd.1) .nil, rd.2) := by
+      unfold toParts
+      simp [pluralJoin, hj, hrc, hrd, hstd, toParts]
+    obtain ⟨t1, env1, ht1, hrel1, hb1, _⟩ := parts_plural_ok F G R ae buf p vn value cases dp dflt .nil okc okd
+      (parts_nil_ok F G R ae buf) fuel sc _ env jenv e1 out hpart hs hg hrel hb hone
+    simp only [refParts, hvv, Spec.Eval.Out.bind] at ht1
+    cases vv <;> simp only [reduceCtorEq] at ht1 hx'
+    rename_i i
+    obtain ⟨r1, h1, hx'⟩ := out_bind_val hx'
+    rw [h1] at ht1
+    simp only [Spec.Eval.Out.bind, List.append_nil, Out.val.injEq, Prod.mk.injEq] at ht1
+    obtain ⟨r2, h2, _⟩ := out_bind_val hx'
+    obtain ⟨e1t, e1e⟩ := ht1
+    rw [e1e] at h2
+    rw [← e1t] at hb1
+    exact ner fuel rd.2 rr env1 e1 (out ++ r1.1) hrr d1 hgd hrel1 hb1 hx2 r2 h2
+
 theorem msg_ne (p id : Nat) (m d : Bytes) (bp : Nat) (body : MsgParts) (ih : PartsNe F G R ae buf body) :
     CmdNe F G R ae buf (.msg p id m d bp body) := by
   intro fuel sc r env jenv out h hs hg hrel hb hx
@@ -1778,7 +1878,12 @@ mutual
     | .text p t rest, buf => parts_text_ne F G R ae buf p t rest (parts_ne rest buf)
     | .ph p name body rest, buf =>
       parts_ph_ne F G R ae buf p name body rest (ph_ok F G R ae hG body buf) (ph_ne body buf) (parts_ne rest buf)
-    | .plural .., _ => fun _ _ _ _ _ _ h => by simp [toParts] at h
+    | .plural p vn value cases dp dflt rest, buf =>
+      parts_plural_ne F G R ae buf p vn value cases dp dflt rest (pcases_ok F G R ae hG cases buf) (parts_ok F G R ae hG dflt buf)
+        (pcases_ne cases buf) (parts_ne dflt buf) (parts_ne rest buf)
+  theorem pcases_ne : ∀ (cs : PluralCases) (buf : Bytes), PCasesNe F G R ae buf cs
+    | .nil, buf => pcases_nil_ne F G R ae buf
+    | .cons p v bp body rest, buf => pcases_cons_ne F G R ae buf p v bp body rest (parts_ne body buf) (pcases_ne rest buf)
   theorem ph_ne : ∀ (b : MsgPhBody) (buf : Bytes), PhNe F G R ae buf b
     | .htmlTag p t, buf => ph_tag_ne F G R ae buf p t
     | .cmd c, buf => ph_cmd_ne F G R ae buf c (cmd_ne c buf)
